@@ -1,0 +1,20 @@
+//! Verification hooks. Only compiled with `--cfg scale_typegen_verif`; never part of a normal build.
+//!
+//! A thread-local sink of hand-formatted JSON event strings which a conformance harness drains
+//! after every public call.
+
+use std::cell::RefCell;
+
+thread_local! {
+    static EVENTS: RefCell<Vec<String>> = const { RefCell::new(Vec::new()) };
+}
+
+/// Record one event (a JSON object rendered as a string).
+pub fn emit(ev: String) {
+    EVENTS.with(|e| e.borrow_mut().push(ev));
+}
+
+/// Drain all events recorded on this thread so far.
+pub fn take() -> Vec<String> {
+    EVENTS.with(|e| std::mem::take(&mut *e.borrow_mut()))
+}
